@@ -262,8 +262,8 @@ def safe_filename(filename, os_type='unix', no_control=True, ascii_only=True,
 
     if os_type == 'windows':
         if new_filename[-1] in ' .':
-            new_filename = '{0}{1:02X}'.format(
-                new_filename[:-1], new_filename[-1]
+            new_filename = '{0}%{1:02X}'.format(
+                new_filename[:-1], ord(new_filename[-1])
             )
 
     if max_length and len(new_filename) > max_length:
